@@ -49,7 +49,7 @@ def gen_cases(tier, seed):
             succ['%d,%d' % (u, v)] = r.random() < ps
             succ['%d,%d' % (v, u)] = r.random() < ps
         out.append({'kind': kinds[k % len(kinds)], 'graph': desc, 'I0': I0, 'R0': R0, 'tmin': tmin,
-                    'tmax': r.choice(['inf', 'inf', tmin + 1, tmin + 2, tmin + 4]), 'succ': succ,
+                    'tmax': r.choice(['inf', 'inf', tmin + 1, tmin + 2, tmin + 4, tmin + 3]), 'succ': succ,
                     'stay': [r.choice([1, 1, 2, 3]) for _ in range(nn)] if r.random() < 0.4 else None,
                     'p': r.choice([0.0, 0.1, 0.3, 0.5, 0.9, 1.0]), 'full': r.random() < 0.5, 'seed': cs,
                     'sim': r.choice(['basic_discrete_SIR', 'discrete_SIR'])})
